@@ -482,7 +482,7 @@ PROPERTY = {
                    "index transposition is the point), against independently computed PySCF integrals; and the padding of active-space RDMs with the frozen orbitals (restricted and unrestricted) "
                    "is proved, for EVERY RDM and EVERY set of integrals (symbolic tensors) on each frozen selection of 3-4 orbitals, to keep the active blocks, to add the frozen electrons to the trace, to leave its "
                    "arguments unchanged and to reproduce the active-space energy expression with folded frozen orbitals (polynomial identities, exact normal forms). Numerical tensors produced by PySCF solvers and simulated measurements: outside the verifier's reach. Bounded native contract runs with an independent check of energy, "
-                   "Hermiticity, traces, padding and - the one frame condition of the property - bit-identity of the arrays passed to the padding functions.",
+                   "Hermiticity, traces, padding and - the one frame condition of the property - bit-identity of the arrays passed to the padding functions. The noise-model route of get_rdm (basis gates appended to / removed from the preparation circuit) is run with zero rates against the exact energy within the sampling error (O3b).",
     "bounds": {"quick": "H2, H4 (frozen none / [0] / [0,3]), LiH (frozen core / non-contiguous), H4+ ROHF and UHF x FCI / CCSD / MP2 (about half); VQE-UCCSD on H2 in 4 encodings", "thorough": "all, plus H4 VQE"},
     "assumptions": ["PySCF solvers, cirq simulation; tolerance 1e-6", "pyscf.lib.takebak_2d modelled by its documented meaning out[idx[:,None], idy] += a when the arrays are symbolic",
                     "numpy indexing / arithmetic executed natively on object arrays of exact polynomials", "openfermion's get_active_space_integrals executed natively on the same symbols (reference for the folded energy)"],
